@@ -34,8 +34,7 @@ class Processor:
         try:
             processor = self._processor(settings, result_reporter)
         except SuiteParseError as ex:
-            reporter = result_reporting.TestSuiteParseErrorReporter(reporting_environment)
-            return reporter.report(ex)
+            return result_reporter.reporter_of_suite_parse_error().report(ex)
 
         test_case_path = test_case_processing.test_case_reference_of_source_file(settings.test_case_file_path)
 
